@@ -376,6 +376,33 @@ doc = {doc}
 {ASSERT}
 """
         out.append(mk_case(f"c01.subclass_docs.{cid}", [("a", "int"), ("u1", U)], body, pre=[f"I64(a) and BU({L}, u1)"]))
+    # history: a condition filters the same after it has been serialised / compared / copied (arguments holding nested mappings
+    # with path-like keys, which the serialiser escapes): the oracle is evaluated on a freshly built term each time
+    for cid, T, doc in [
+        ("in_list.nested_pathlike", "leaf('value', None, 'in_', [{'path': a}, {'src': {'mypath': [a]}}, 1])", "[{'path': u1}, {'src': {'mypath': [u1]}}, {chr(92) + 'path': u1}, 1, u1]"),
+        ("equal_to.nested_pathlike", "leaf('value', None, 'equal_to', {'src': {'PathName': a}, 'n': 1})", "[{'src': {'PathName': u1}, 'n': 1}, {'src': {chr(92) + 'PathName': u1}, 'n': 1}, u1]"),
+        ("items_contain.kw_pathlike", "leaf('value', None, 'items_contain', target={'path': [a]})", "[{'target': {'path': [u1]}}, {'target': {chr(92) + 'path': [u1]}}, {'target': u1}]"),
+        ("not_in.list_of_lists", "leaf('value', None, 'not_in', [[a, {'path.length': 0}], 2])", "[[u1, {'path.length': 0}], [u1, {chr(92) + 'path.length': 0}], 2, u1]"),
+    ]:
+        body = f"""
+import copy
+mk = lambda: {T}
+doc = {doc}
+cond = build_cond(mk())
+ok = same('first filter', cond.filter(doc).result, ref_tree(mk(), doc))
+spec = cond.to_json_like()
+ok = ok and same('filter after to_json_like()', cond.filter(doc).result, ref_tree(mk(), doc))
+spec2 = cond.to_json_like()
+ok = ok and note('serialising twice gives the same spec', spec == spec2)
+ok = ok and note('still equal to a freshly built condition', cond == build_cond(mk()))
+dup = copy.deepcopy(cond)
+repr(cond)
+ok = ok and same('filter after deepcopy / repr / ==', cond.filter(doc).result, ref_tree(mk(), doc))
+ok = ok and same('the copy filters alike', dup.filter(doc).result, ref_tree(mk(), doc))
+ok = ok and same('test_all', cond.test_all(doc), all(ref_tree(mk(), doc)))
+return ok
+"""
+        out.append(mk_case(f"c01.history.serialised.{cid}", [("a", "int"), ("u1", "int")], body, pre=[f"BU({L}, a, u1)"], stubs=["sym_repr"]))
     # in_range / not_in_range with a float bound: `range(lower, upper)` is undefined, so every item counts as not satisfying
     # (float items and bounds concrete: a float against a symbolic int stalls z3)
     for nm in ("in_range", "not_in_range"):
